@@ -235,6 +235,16 @@ const ANCHORS: &[(&str, &str)] = &[
     ("clock", "SimulatedClock::advance_ms"),
 ];
 
+/// every case kind of the extension must have run at least once (a silently skipped kind — an early
+/// `return`, a generator that never picks a branch — is a hole, not a pass)
+pub fn require_cells(out: &mut Out, prop: &str, cells: &[&str]) {
+    for c in cells {
+        if out.dist.get(*c).copied().unwrap_or(0) == 0 {
+            out.violation(&format!("{}:coverage:case-kind-not-run:{}", prop, c), "a case kind of the harness did not run in this check (empty cell of the input distribution)", json!({"cell": c}));
+        }
+    }
+}
+
 pub fn report(out: &mut Out, prop: &str) {
     let mut table: BTreeMap<String, String> = BTreeMap::new();
     let (mut driven, mut not_driven, mut na) = (0u64, 0u64, 0u64);
@@ -272,6 +282,27 @@ pub fn report(out: &mut Out, prop: &str) {
                 }
             }
         }
+    }
+    match prop {
+        "C12" => require_cells(out, prop, &[
+            "x:case:step-functions", "x:case:write-buffer", "x:case:workers:interval-never", "x:case:workers:interval-zero",
+            "x:case:workers:mailbox-capacity-crossed", "x:case:workers:start-fails-on-manifest-load-error", "x:case:workers:with-compaction-worker",
+            "x:case:legacy:persistence-worker", "x:case:legacy:flush-worker", "x:case:legacy:delta-sink-worker",
+            "x:push:backpressure", "x:push:aimed-at-byte-threshold", "x:advance:aimed-at-interval", "x:flush:err", "x:should_flush:true", "x:should_flush:false",
+            "x:actor:last-batch-drained-at-shutdown", "x:capacity:batches-dropped-by-full-mailbox",
+            "fs:case:store-differential(InMemory,LocalFs,FaultStore vs model)", "fs:case:crash-images-on-LocalFs", "fs:case:workload-on-LocalFs-vs-InMemory",
+            "fs:case:worker-pipeline-on-LocalFs+restart", "fs:prefix-checked:segment", "fs:prefix-checked:manifest", "fs:prefix-checked:checkpoint", "fs:crash-image-recovered-on-LocalFs",
+        ]),
+        "C13" => require_cells(out, prop, &[
+            "hist:case:compact-if-needed", "hist:case:compaction-worker", "hist:case:emptied-then-refilled", "hist:exactness-checked",
+            "ifneeded:max_segments:=len", "ifneeded:max_segments:=len-1", "ifneeded:max_segments:=len+1",
+            "boundary:target-at-a-segment-size", "boundary:cutoff-at-a-tombstone-stamp",
+        ]),
+        "C11" => require_cells(out, prop, &[
+            "x11:checkpoint-via-manager", "x11:manifest-manager:add_segment", "x11:manifest-manager:update", "x11:production-startup-sequence",
+            "x11:should_checkpoint:min_segments:=len", "x11:should_checkpoint:min_segments:<len", "x11:should_checkpoint:min_segments:>len", "x11:covering-checkpoint(last>=next-1)",
+        ]),
+        _ => {}
     }
     out.count_n("coverage:entry-points:driven", driven);
     out.count_n("coverage:entry-points:not-driven(with reason)", not_driven);
